@@ -295,14 +295,20 @@ func syncDir(path string) error {
 }
 
 // Remove deletes hash file.
-func (u *UserHash) Remove() {
+func (u *UserHash) Remove() error {
 	if !userNameRe.MatchString(u.user) {
-		return
+		return nil
 	}
 	filename := filepath.Join(u.store.BaseDir, u.user)
-	os.Remove(filename + adminExt) //nolint:errcheck
-	os.Remove(filename + userExt)  //nolint:errcheck
-	syncDir(u.store.BaseDir)       //nolint:errcheck
+	errAdmin := os.Remove(filename + adminExt)
+	errUser := os.Remove(filename + userExt)
+	errSync := syncDir(u.store.BaseDir)
+	for _, err := range []error{errAdmin, errUser} {
+		if err != nil && !os.IsNotExist(err) {
+			return err
+		}
+	}
+	return errSync
 }
 
 // Exists checks if user exists. It also returns whether user is an admin. This returns true even if
